@@ -4,6 +4,7 @@ import (
 	"bytes"
 	"encoding/json"
 	"fmt"
+	"sort"
 	"testing/fstest"
 	"time"
 
@@ -22,10 +23,13 @@ type vsCfg struct {
 	// Faulty: the byte store underneath the in-memory store fails now and then (faults list of the trace). A write
 	// that reports an error leaves its variable indeterminate until the next acknowledged write; every acknowledged
 	// write is read back exactly; a read may fail while a fault fires, it never returns another value.
-	Faulty  bool       `json:"faulty_backing,omitempty"`
-	Instant string     `json:"instant"`
-	Prepop  []vsPrepop `json:"prepopulated,omitempty"`
-	Vars    []VarSpec  `json:"vars"`
+	Faulty bool `json:"faulty_backing,omitempty"`
+	// SecondStore: another in-memory store is created and opened in the same process after this one (and written to);
+	// what happens there is none of this store's business, and the other way round.
+	SecondStore bool       `json:"second_store,omitempty"`
+	Instant     string     `json:"instant"`
+	Prepop      []vsPrepop `json:"prepopulated,omitempty"`
+	Vars        []VarSpec  `json:"vars"`
 }
 
 type vsPrepop struct {
@@ -110,7 +114,8 @@ func (e *varstoreEngine) Gen(seed uint64, tier string, run int) *Trace {
 	dbvals := []ValSpec{{Kind: "hashdb", N: 0}, {Kind: "hashdb", N: 1, Tag: ht}, {Kind: "hashdb", N: 2, Tag: ht},
 		{Kind: "hashdb", N: 3, Tag: 1 + r.Intn(3)}, {Kind: "hashdb", N: r.Range(4, 9), Tag: ht}, {Kind: "certdb", Tag: r.Intn(poolSize)},
 		{Kind: "multidb", N: r.Range(2, 4), Tag: r.Intn(4)}, {Kind: "tailemptydb", N: r.Intn(3), Tag: r.Intn(4)},
-		{Kind: "randdb", Tag: r.Intn(1 << 24)}, {Kind: "randdb", Tag: r.Intn(1 << 24)}}
+		{Kind: "randdb", Tag: r.Intn(1 << 24)}, {Kind: "randdb", Tag: r.Intn(1 << 24)},
+		{Kind: "cutupdate", N: Pick(r, []int{17, 24, 39, 40, 41, 100, 700, 1200}), Tag: r.Intn(4)}}
 	rawvals := []ValSpec{{Kind: "raw", N: 0}, {Kind: "raw", N: 1, Tag: 1}, {Kind: "raw", N: 4, Tag: 2}, {Kind: "raw", N: 7, Tag: 3},
 		{Kind: "raw", N: 48, Tag: 4}, {Kind: "raw", N: r.Range(49, 400), Tag: 5}, {Kind: "bootorder", N: r.Range(1, 6), Tag: 1}}
 	val := func(i int) ValSpec {
@@ -179,11 +184,19 @@ func (e *varstoreEngine) Gen(seed uint64, tier string, run int) *Trace {
 			}
 		}
 	}
+	c.SecondStore = r.Fork("second").Chance(1, 5)
 	var faults []Fault
 	if fr := r.Fork("faults"); fr.Chance(1, 5) {
 		c.Faulty = true
 		for n := fr.Range(1, 4); n > 0; n-- {
 			faults = append(faults, Fault{Pos: fr.Intn(5*nops + 3), Kind: Pick(fr, []string{"err", "partial_err", "short_nil", "err_full", "err"}), Arg: Pick(fr, []int{1, 2, 3, 4, 5, 17, 40})})
+		}
+	}
+	// a value that only begins like an authentication descriptor is a value for PLAIN writes (as the payload of a signed
+	// update to PK/KEK/db/dbx it would not be a signature database, which is what those variables hold)
+	for i := range ops {
+		if ops[i].Val.Kind == "cutupdate" && ops[i].Op != "WriteVar" {
+			ops[i].Val = ValSpec{Kind: "hashdb", N: 2, Tag: ht}
 		}
 	}
 	return &Trace{Property: "C12", Engine: "varstore", Seed: seed, Run: run, Tier: tier,
@@ -296,6 +309,18 @@ func vsExec(c vsCfg, ops []vsOp, faults []Fault, x *X) (hist []porcupine.Operati
 		x.Logf("prepopulated %s = %s", c.Vars[p.Var].String(), shortHex(val))
 	}
 	api := tfs.Open()
+	var api2 *efivarfs.Efivarfs
+	second := map[int][]byte{}
+	if c.SecondStore {
+		api2 = testfs.NewTestFS().Open()
+		for k, vs := range c.Vars {
+			val := []byte(fmt.Sprintf("second store, variable %d, a value long enough to leave a tail behind ................................", k))
+			if err := api2.WriteVar(vs.Var(), rawVal(val)); err == nil {
+				second[k] = val
+			}
+		}
+		x.Probe("second_store_alive")
+	}
 	// the faulty device: the same byte store the in-memory store composed, seen through the fault plane
 	var plane *Plane
 	wrap := func() {
@@ -509,6 +534,14 @@ func vsExec(c vsCfg, ops []vsOp, faults []Fault, x *X) (hist []porcupine.Operati
 				x.Probe("read_failed_under_fault") // allowed: the device failed inside this read and the store said so
 				continue
 			}
+			if (op.Op == "Typed" || op.Op == "GetVarInto") && has[op.Var] {
+				if _, derr := refESLDecode(model[op.Var]); derr != nil {
+					// the variable holds bytes that are not a signature database: what a database decoder makes of them is
+					// another property's business (it survived them: no panic above)
+					x.Probe("typed_read_of_a_non_database_value")
+					continue
+				}
+			}
 			out := regOut{Ok: rerr == nil, Val: string(got)}
 			hist = append(hist, porcupine.Operation{ClientId: 0, Input: regIn{Var: op.Var}, Call: call, Output: out, Return: seq})
 			seq++
@@ -541,6 +574,18 @@ func vsExec(c vsCfg, ops []vsOp, faults []Fault, x *X) (hist []porcupine.Operati
 			st = append(st, has[k], len(model[k]))
 		}
 		x.State(h64(st...))
+	}
+	// the second store still holds what was written to it
+	for _, k := range sortedIntKeys(second) {
+		var sink rawSink
+		v := c.Vars[k].Var()
+		if vsStoreStrips(v.Name) {
+			continue // (its values are not signature databases: the shim leaves them alone, but keep to ordinary variables)
+		}
+		if err := api2.GetVar(v, &sink); err != nil || !bytes.Equal(sink.Got, second[k]) {
+			x.Fail("register.other_store_untouched", len(ops)-1, "GetVar", "a second store opened beside this one lost its value of %s: read %s (err %v), it was written %s", c.Vars[k].String(), shortHex(sink.Got), err, shortHex(second[k]))
+			return hist
+		}
 	}
 	x.Nontriv = readAfter2
 	return hist
@@ -580,3 +625,12 @@ func vsPanic(x *X, i int, kind string, pv any) {
 var _ = fmt.Sprint
 var _ efivar.Efivar
 var _ *efivarfs.Efivarfs
+
+func sortedIntKeys(m map[int][]byte) []int {
+	var ks []int
+	for k := range m {
+		ks = append(ks, k)
+	}
+	sort.Ints(ks)
+	return ks
+}
